@@ -105,23 +105,31 @@ def run_rules(facts, rep, skip=()):
 def rule_unpack(facts, rep):
     b = facts.body(cp.CRATE, "anstyle_parse::state::definitions::unpack")
     rep.fn(b["path"])
-    tup = None
-    for n in hir.walk(b["hir"]):
-        if n.get("k") == "tuple" and len(n["es"]) == 2:
-            tup = n
-    if tup is None:
-        raise Unrecognised("unpack does not return a 2-tuple")
-    exp = [("BitAnd", 15, cp.STATE), ("Shr", 4, cp.ACTION)]
-    for i, (op, k, ty) in enumerate(exp):
-        t = hir.simp(tup["es"][i])
-        ok = hir.is_call(t, "transmute") and t.get("ty") == ty
-        if ok:
-            a = hir.simp(t["args"][0])
-            ok = (a.get("k") == "bin" and a["op"] == op and hir.is_local(a["l"], "delta") and hir.lit_val(a["r"]) == k
-                  and a.get("ty") == "u8")
-        rep.check(ok, "unpack", b["path"], f"component-{i}",
-                  f"component {i} must be transmute::<u8,{ty.split('::')[-1]}>(delta {op} {k}) — state in the low, "
-                  f"action in the high nibble; any 4-bit value is a valid discriminant by the encoding rule", loc(b, t))
+    # unpack(delta) for all 256 bytes by abstract evaluation: the state is variant (delta & 15), the action variant (delta >> 4),
+    # by discriminant — a transmute of the nibble (valid for any 4-bit value by the encoding rule), a table indexed by it, a match
+    import abseval
+
+    def by_discriminant(a_):
+        v, ty = a_[0], str(a_[-1])
+        names = vt500.STATES if ty == cp.STATE else vt500.ACTIONS if ty == cp.ACTION else None
+        if v[0] != "int" or names is None or not 0 <= v[1] < len(names):
+            raise Unrecognised(f"transmute of {v} to {ty}")
+        return ("enum", ty + "::" + names[v[1]])
+    bad = {0: [], 1: []}
+    for d in range(256):
+        try:
+            r = abseval.Evaluator(facts, cp.CRATE, {"transmute": by_discriminant}).call_fn(cp.CRATE, b["path"], [("int", d)])
+        except Unrecognised as ex:
+            r = ("not-evaluable", str(ex)[:60])
+        want = (("enum", cp.STATE + "::" + vt500.STATES[d & 15]), ("enum", cp.ACTION + "::" + vt500.ACTIONS[d >> 4]))
+        for i in (0, 1):
+            if not (r[0] == "tuple" and len(r) == 3 and r[1 + i] == want[i]):
+                bad[i].append((d, r[1 + i] if r[0] == "tuple" and len(r) == 3 else r))
+    rep.count(256)
+    for i, what in ((0, "state = variant (delta & 15)"), (1, "action = variant (delta >> 4)")):
+        rep.check(not bad[i], "unpack", b["path"], f"component-{i}",
+                  f"component {i}: {what} for every byte — state in the low, action in the high nibble (the discriminant order is checked by the "
+                  f"encoding rule) {bad[i][:2]}", loc(b))
     rep.check(b["sig"].startswith("fn(u8) -> (" + cp.STATE), "unpack", b["path"], "signature", b["sig"], loc(b))
 
 
